@@ -2,12 +2,12 @@
 import json
 import threading
 
-from vlib.core import write_cfg, validate_trace, count_lines, NCPU
+from vlib.core import write_cfg, validate_trace, count_lines, NCPU, CheckerError, REPO
 
 LEVEL = "model_checking"
 META = {
     "technique": "TLA+ spec Arpa.tla (encoders, Canon, DecodeAddr as pure operators over label/character sequences) model-checked by TLC over bounded address and name sets; every enumerated address and name replayed on IPToReversedAddr / IPFromReversedAddr with the spec-predicted result; seeded random addresses and edited names recorded from the Go code and trace-validated by TLC",
-    "level_text": "TLC checks on every enumerated address (IPv4 over a byte alphabet^4, the same as IPv4-mapped and nearly-mapped 16-byte forms, every IPv6 byte position and adjacent pair over two background fills) that DecodeAddr(Encode(a)) = a in lower/upper/mixed case with zero or one trailing dot and is rejected with two, and on every enumerated name (all label sequences up to 4-5 labels over a table of octet / leading-zero / overflow / nibble / junk labels and long nibble runs of 28..34 labels, before 16 suffix shapes per family incl. xin-addr.arpa, wrong TLD, Unicode look-alikes) that whatever decodes re-encodes to its folded, dot-stripped self. TLC emits each address and name with the predicted result; the Go harness replays all of them on the real functions (value, rejection, *AddrError type, no panic). The name family also replaces each of the last labels (suffix labels and the labels next to them) by its ACE alias xn--<label>- and contains a real IDN label with its ACE form, and control-byte look-alikes of '-', '.', '6' in the suffix. Single-byte substitution: for six canonical names (full, partial and root name of each family) every position x every byte value 0..255 is run on the real code, judged in Go by the statement's relations and, every one of them, by TLC's DecodeAddr on the logged observation. 10^5-10^6 seeded random addresses and random edits of their names (incl. ACE wrapping of a label) are run against the round-trip identity in Go and a sample of the log is re-judged by TLC with the same operators.",
+    "level_text": "TLC checks on every enumerated address (IPv4 over a byte alphabet^4, the same as IPv4-mapped and nearly-mapped 16-byte forms, every IPv6 byte position and adjacent pair over two background fills) that DecodeAddr(Encode(a)) = a in lower/upper/mixed case with zero or one trailing dot and is rejected with two, and on every enumerated name (all label sequences up to 4-5 labels over a table of octet / leading-zero / overflow / nibble / junk labels and long nibble runs of 28..34 labels, before 16 suffix shapes per family incl. xin-addr.arpa, wrong TLD, Unicode look-alikes) that whatever decodes re-encodes to its folded, dot-stripped self. TLC emits each address and name with the predicted result; the Go harness replays all of them on the real functions (value, rejection, *AddrError type, no panic). The name family also replaces each of the last labels (suffix labels and the labels next to them) by its ACE alias xn--<label>- and contains a real IDN label with its ACE form, and control-byte look-alikes of '-', '.', '6' in the suffix. Single-byte substitution: for six canonical names (full, partial and root name of each family) every position x every byte value 0..255 is run on the real code, judged in Go by the statement's relations and, every one of them, by TLC's DecodeAddr on the logged observation. No hidden state: ArpaState.tla proves 'every call returns Encode of the bytes its argument held' for a stateless and a copying-memo design and refutes it for a memo aliasing the caller's buffer and for an unsynchronised memo; the harness replays those histories: ~7.6k IPToReversedAddr calls that reuse one backing array (in-place increments of every byte of 4-byte, 16-byte and mapped buffers, both families alternating in one buffer, whole and 4-byte tail), argument checked unchanged, name decoded back and judged by TLC against the current bytes, all names retained and re-verified at the end; then goroutines encode/decode their own addresses under -race. 10^5-10^6 seeded random addresses and random edits of their names (incl. ACE wrapping of a label) are run against the round-trip identity in Go and a sample of the log is re-judged by TLC with the same operators.",
     "level_note": "Bounded: the exhaustive part covers label sequences up to the stated length over the label table, not all strings; longer/other inputs are sampled (random edits). A nibble name of an IPv4-mapped address is accepted as the IPv6 (Is4In6) address it spells, which the statement leaves open. Domain-name validity is taken from netutil.ValidateDomainName.",
 }
 
@@ -116,7 +116,25 @@ def run(ctx):
     jobs.append(dict(spec_dir=d, module="ArpaAddr", cfg="Addr_run.cfg", workers=w, label="addr-mc-gen", timeout=1500))
     # case / trailing-dot invariance of the decoders (pure model checking, smaller family)
     vjobs, _ = names_jobs(ctx, d, "mini" if q else "quick", True, ["Variants"], w, tag="mcv")
-    par(ctx, jobs + vjobs)
+    # "no hidden state" (ArpaState.tla): proved for the stateless and the copying-memo design,
+    # and TLC must refute it for a memo whose key aliases the caller's buffer (sequentially)
+    # and for an unsynchronised two-word memo (two processes).
+    sjobs = []
+    for design, procs in (("none", "{1, 2}"), ("copy", "{1, 2}"), ("alias", "{1}"), ("unsync", "{1, 2}")):
+        write_cfg(d / ("State_%s.cfg" % design), "Spec",
+                  {"Design": '"%s"' % design, "Procs": procs, "MaxCalls": 2 if q else 3, "LastBytes": "{1, 2}" if q else "{1, 2, 3}"},
+                  invariants=["NoHiddenState"], properties=["ResultsStable"])
+        sjobs.append(dict(spec_dir=d, module="ArpaState", cfg="State_%s.cfg" % design, workers=1,
+                          label="no-hidden-state:" + design, expect_ok=design in ("none", "copy")))
+    results = par(ctx, jobs + vjobs + sjobs)
+    refuted = []
+    for kw, r in zip(jobs + vjobs + sjobs, results):
+        if kw.get("expect_ok") is False:
+            if r.violated != "NoHiddenState":
+                raise CheckerError("TLC did not refute the %s design (expected NoHiddenState violated, got %s):\n%s"
+                                   % (kw["label"], r.violated, "\n".join(r.out.splitlines()[-30:])))
+            refuted.append(kw["label"].split(":")[1])
+    ctx.extra["memo_designs_refuted_by_tlc"] = refuted
 
     ctx.vh(["c04", "replay-addrs", d / "addr_vectors.ndjson", ctx.scratch / "addrs.res"])
     s1 = ctx.collect(ctx.scratch / "addrs.res")
@@ -148,6 +166,27 @@ def run(ctx):
     ctx.extra["single_byte_substitution_accepts"] = s3["subst_accepts"]
     ctx.extra["trace_events_validated"] = n
     ctx.extra["random_edited_names_accepted"] = s3["edited_accepts"]
+    ctx.extra["buffer_reuse_walk_calls"] = s3["walk_calls"]
+
+    # 4. S: the codec from several goroutines, un-instrumented, under the race detector.
+    ng, rounds = (6, 3) if q else (12, 20)
+    p = ctx.vh(["c04", "stress", ctx.scratch / "stress.res", ng, rounds], race=True, timeout=1800,
+               fatal_key="concurrent IPToReversedAddr / IPFromReversedAddr")
+    if (ctx.scratch / "stress.res").exists() and p.returncode == 0:
+        s4 = ctx.collect(ctx.scratch / "stress.res")
+        ctx.evaluations += s4["stress_calls"]
+        ctx.extra["concurrent_phase"] = {"goroutines": ng, "rounds": rounds, "units": s4["stress_units"],
+                                         "calls": s4["stress_calls"]}
+    golibs, other = ctx.race_reports()
+    if other and not golibs:
+        raise CheckerError("race detector reported a race in the harness only:\n" + other[0][:3000])
+    for rep in golibs:
+        frames = [ln.strip() for ln in rep.splitlines() if str(REPO) + "/" in ln and ".go:" in ln]
+        where = " | ".join(sorted(set("/".join(f.split(" ")[0].split("/")[-2:]) for f in frames))[:4])
+        ctx.mismatch("DATA RACE in the concurrent ARPA codec: " + where,
+                     "the Go race detector reported a data race with a golibs frame while goroutines encoded and "
+                     "decoded their own addresses", rep[:6000])
+    ctx.extra["race_reports_with_golibs_frames"] = len(golibs)
 
 
 def replay(ctx, path):
@@ -163,7 +202,7 @@ def replay(ctx, path):
         same = got.get("got") == d.get("want") and "panic" not in got
         print("conforms now" if same else "still differs")
         return 0 if same else 1
-    if fn == "IPToReversedAddr":
+    if fn == "IPToReversedAddr" and "want" in d:
         p = ctx.vh(["c04", "probe", fn, json.dumps(d["ip"])])
         got = json.loads(p.stdout)
         print("predicted: %s" % d.get("want"))
